@@ -54,10 +54,10 @@ PROPS['C10'] = {
                     'cartridge RAM enable (0x0000-0x1FFF) is not part of the property and not modelled'],
 }
 PROPS['C11'] = {
-    'level': 'proof', 'verus': ['bus', 'cart', 'loader'], 'kani': ['misc:header'], 'trusted_base': _BUS_TB, 'design_ref': 'DESIGN.md 5.11',
+    'level': 'proof', 'verus': ['bus', 'cart', 'loader', 'video_leaf'], 'kani': ['misc:header'], 'trusted_base': _BUS_TB, 'design_ref': 'DESIGN.md 5.11',
     'technique': 'Verus built-in obligations (index in bounds, arithmetic overflow, unreachable panics) on the bus functions under the invariant mem_wf preserved by every write',
     'level_text': 'Every index, arithmetic operation and panic site in the four bus helpers, the bank helpers, IO::get_byte/set_byte and the MBC write handlers is proved safe for every address, value and reachable controller state (invariant CartState::inv + mem_wf preserved by every bus write, for any ROM of 1..512 banks and any cartridge RAM size up to 128 KiB).',
-    'level_note': 'Process-level abort semantics are not modelled: a reachable panic is already the violation. The LCD pixel pipeline (run_clock_cycles) is outside the bus functions this property quantifies over.',
+    'level_note': 'Process-level abort semantics are not modelled: a reachable panic is already the violation. The device catch-up that every bus write can trigger includes the LCD renderer: unit video_leaf proves on the unsliced VideoState::run_clock_cycles (obligation run_clock_cycles_safe) that, whatever the guest has written to the LCD registers mid-frame, every index into the tile maps, tile data, object line cache and frame buffer stays in bounds and the invariant pipe_safe (part of IO::wf, preserved by every register setter) is re-established.',
     'assumptions': ['overflow checks on (Verus checks every + - * on machine integers)'],
 }
 PROPS['C12'] = {
@@ -109,20 +109,20 @@ PROPS['C08'] = {
     'assumptions': ['the executed instruction does not straddle the end of its fetch slice (decode would index past the slice otherwise)'],
 }
 PROPS['C09'] = {
-    'level': 'proof', 'verus': ['core_step', 'bus', 'timer'], 'trusted_base': _CORE_TB, 'design_ref': 'DESIGN.md 5.9',
+    'level': 'proof', 'verus': ['core_step', 'bus', 'timer', 'codecache'], 'kani': ['jit:frame'], 'also_counts': ['C02'], 'trusted_base': _CORE_TB, 'design_ref': 'DESIGN.md 5.9',
     'technique': 'Verus contracts: get_consumed_cycles, to_clock_cycles, run_interp, update, MemoryAreas::run_clock_cycles, IO::run_clock_cycles, Timer::run_cycles (devices advance by exactly 4 x consumed)',
     'level_text': 'Per step (instruction-stepped build): the devices receive catchup_post(mem, 4 * cycles) where cycles = the instruction\'s machine cycles (>= 1) plus the 5 pending from a previous dispatch; the timer view advances by exactly that many clocks (run), the LCD by video_after of the same count, DMA by count/4 bytes; catch-up happens before interrupts are sampled; a dispatch leaves exactly 5 cycles pending; a halted step delivers 4 clocks.',
-    'level_note': 'Core::run_frame (instruction-stepped build) is proved to terminate: every update() advances the LCD position by k machine cycles with 1 <= k <= 14, so the clocks-to-VBlank / clocks-to-end-of-VBlank variants strictly decrease (one assume(): the guest keeps PC inside executable memory). The explicit bound "two frame periods plus one block" and the block-stepped (jit) accounting are not proved (jit: only through C04\'s relation).',
+    'level_note': 'Core::run_frame (instruction-stepped build) is proved to terminate: every update() advances the LCD position by k machine cycles with 1 <= k <= 14, so the clocks-to-VBlank / clocks-to-end-of-VBlank variants strictly decrease (one assume(): the guest keeps PC inside executable memory). The explicit bound "two frame periods plus one block" is not proved. Block-stepped (jit) accounting: the jit variant of Core::run_code_block (unit codecache) delivers 4 x the block\'s cycle count, and the Kani harness j_frame (the C02 checks of the translated prologue / block epilogue, counted here) shows that a translated block starts from the pending cycle count (the 5 cycles of a dispatch) and stores the accumulated count back; per-instruction cycle counts inside a block are C02.',
     'assumptions': ['one catch-up batch <= 0xffff0000 clocks'],
 }
 
 PROPS['C14'] = {
-    'level': 'proof', 'verus': ['video_timing'], 'design_ref': 'DESIGN.md 5.14',
+    'level': 'proof', 'verus': ['video_timing', 'video_leaf'], 'design_ref': 'DESIGN.md 5.14',
     'trusted_base': TB_VERUS + ['rule R7 (program slice): the mode-3 pixel block and the mode-2 -> 3 tile set-up of run_clock_cycles are replaced by external stubs after a syntactic check that they (and the three rendering helpers) assign no timing / register-file field',
                                 'vstd specification of core::mem::swap'],
     'technique': 'Verus loop invariant on the timing slice of VideoState::run_clock_cycles against a recursive closed-form schedule in structured coordinates; batching / frame-period lemmas by induction',
     'level_text': 'VideoState::run_clock_cycles (sliced, R7), check_current_line, check_mode_interrupt, get_lcd_status, get_ly, get_current_mode, new and the register setters are proved for every elapsed time (multiple of 4), every STAT enable mask and LYC: the (line, offset, mode) state after n clocks equals lcd_run(n/4) of the reference schedule (456-clock lines 0..153, modes 2/3/0 = 80/188/188 clocks, lines 144-153 mode 1), the returned VBlank/STAT requests equal the OR of the per-step reference flags (VBlank exactly when LY becomes 144; STAT on entry to modes 2/0/1 with their enables and when LY becomes LYC), STAT bits 0-2 reflect the schedule; lemma_lcd_batching proves independence of batching and lemma_lcd_frame_period the 70224-clock frame.',
-    'level_note': 'Termination / panic-freedom of the sliced pixel code is not part of this claim (assumed by R7). The register-file frame is proved on a second copy of the same extracted text (run_clock_cycles_frame).',
+    'level_note': 'Termination / panic-freedom of the pixel code that the R7 slice removes is proved separately on the unsliced function (video_leaf: run_clock_cycles_safe, counted here). The register-file frame is proved on a second copy of the same extracted text (run_clock_cycles_frame).',
     'assumptions': ['elapsed time per batch is a multiple of 4 clocks (callers pass 4 x machine cycles)'],
 }
 
